@@ -53,6 +53,12 @@ pub fn gen_mode_graph_case(d: &mut Dec, thorough: bool, lookaheads: usize) -> Ca
         case.inputs.push(gen::gen_huge_input(d, &model));
         return case;
     }
+    if large && d.chance(40) {
+        // hundreds of short tokens, rarely a mode switch
+        case.modes = gen::benign_modes();
+        case.inputs.push(gen::gen_medium_benign_input(d));
+        return case;
+    }
     if large {
         if d.chance(90) {
             // one very long token
